@@ -133,7 +133,7 @@ func compareRender(ctx *fw.Ctx, segs []ref.Seg, st ref.Status, got string, err e
 
 func c02Opts(r *fw.Rand, tier string) gen.Opts {
 	o := gen.Opts{MaxDepth: 2 + r.Intn(2), Msgs: r.P(1, 2), Directives: r.P(2, 3), Autoescape: r.P(1, 2), LetShadow: true,
-		Globals: r.P(1, 3), IJ: r.P(1, 3), ErrPlants: r.P(1, 4)}
+		Globals: r.P(1, 3), IJ: r.P(1, 3), ErrPlants: r.P(1, 4), Recursion: r.P(1, 3)}
 	if tier == "thorough" {
 		o.MaxDepth = 2 + r.Intn(4)
 	}
